@@ -317,3 +317,119 @@ def run_matrix_case(case):
                 signal.alarm(0)
         out['res'].append(r)
     return out
+
+
+SEM_KINDS = ['none', 'id', 'tag', 'tagdefault', 'failb', 'raise', 'raiseKeyError', 'raiseValueError', 'raiseTypeError',
+             'raiseAttributeError', 'raiseIndexError', 'raiseStopIteration', 'raiseAssertionError', 'raiseRuntimeError',
+             'raiseLookupError']
+
+
+def make_semantics2(kind, rules, params=None):
+    """Semantics object for C06: one method per rule (or only _default for 'tagdefault'), recording every call."""
+    if kind == 'none':
+        return None, []
+    from tatsu.exceptions import FailedSemantics
+    log = []
+    params = params or {}
+
+    class Tag:
+        def __init__(self, r, v):
+            self.__tag__, self.v = r, v
+
+        def __repr__(self):
+            return f'Tag({self.__tag__},{self.v!r})'
+
+    class Custom(Exception):
+        pass
+
+    excs = {'raise': Custom, 'raiseKeyError': KeyError, 'raiseValueError': ValueError, 'raiseTypeError': TypeError,
+            'raiseAttributeError': AttributeError, 'raiseIndexError': IndexError, 'raiseStopIteration': StopIteration,
+            'raiseAssertionError': AssertionError, 'raiseRuntimeError': RuntimeError, 'raiseLookupError': LookupError}
+
+    def hit(ast):
+        return ast == 'b' or (isinstance(ast, dict) and 'b' in list(ast.values()))
+
+    def act(name, ast, a, kw):
+        log.append((name, norm(ast), [str(x) for x in a]))
+        want = params.get(name)
+        if want is not None and [str(x) for x in a] != [str(x) for x in want]:
+            raise AssertionError(f'rule {name}: declared params {want} but action received {a}')
+        if kind == 'id':
+            return ast
+        if kind in ('tag', 'tagdefault'):
+            return Tag(name, ast)
+        if kind == 'failb':
+            if hit(ast):
+                raise FailedSemantics('b')
+            return ast
+        if hit(ast):
+            raise excs[kind]('boom')
+        return ast
+
+    class Sem:
+        pass
+
+    if kind == 'tagdefault':
+        def _default(self, ast, *a, **kw):
+            # _default is not told the rule name; tag with '?' and let the driver compare modulo the tag's name
+            return act('?', ast, (), kw)
+        Sem._default = _default
+    else:
+        for nm in rules:
+            def mk(nm):
+                def action(self, ast, *a, **kw):
+                    return act(nm, ast, a, kw)
+                return action
+            setattr(Sem, nm, mk(nm))
+    return Sem(), log
+
+
+def run_sem_case(case):
+    """C06: {ebnf, texts, rules:[names], params:{rule:[..]}, kinds:[...], backend:'model'|'generated', settings}
+    -> {'compile':..., 'res': [ {kind: outcome + {'calls': {rule: n}}} per text ]}"""
+    sys.setrecursionlimit(case.get('reclimit', 3000))
+    import tatsu
+    signal.signal(signal.SIGALRM, _alarm)
+    settings = dict(case.get('settings') or {})
+    out = {'res': []}
+    clear_caches()
+    signal.alarm(case.get('timeout', 30))
+    try:
+        if case.get('backend') == 'generated':
+            cls, _src = load_generated(case['ebnf'])
+            parse = lambda text, **kw: cls().parse(text, **kw)   # noqa: E731
+        else:
+            model = tatsu.compile(case['ebnf'])
+            parse = lambda text, **kw: model.parse(text, **kw)   # noqa: E731
+        out['compile'] = {'k': 'ok'}
+    except Exception as e:  # noqa: BLE001
+        out['compile'] = {'k': 'exc', 'cls': type(e).__name__, 'msg': str(e)[:300]}
+        return out
+    finally:
+        signal.alarm(0)
+    for text in case['texts']:
+        r = {}
+        for kind in case['kinds']:
+            extra = {}
+            k2 = kind
+            if kind.endswith('/memo-off'):
+                k2 = kind.split('/')[0]
+                extra = {'memoization': False}
+            sem, log = make_semantics2(k2, case['rules'], case.get('params'))
+            kw = dict(settings); kw.update(extra)
+            if sem is not None:
+                kw['semantics'] = sem
+            signal.alarm(case.get('timeout', 30))
+            try:
+                o = outcome(lambda: parse(text, start=case.get('start', 's'), **kw))
+            except _Timeout:
+                o = {'k': 'exc', 'cls': 'Timeout'}
+            finally:
+                signal.alarm(0)
+            calls = {}
+            for nm, _a, _p in log:
+                calls[nm] = calls.get(nm, 0) + 1
+            o['calls'] = calls
+            r[kind] = o
+        out['res'].append(r)
+    return out
